@@ -65,11 +65,16 @@ structure AccV where
   merged : Option MProps
 deriving Repr, Inhabited
 
+/-- `Property.__set_name__` (properties.py:86-89) -/
+def PropV.setName (name : Name) (p : PropV) : PropV :=
+  if p.exported != "false" && p.extname == "" then { p with extname := "_" ++ name } else p
+
 inductive Decl where
   | param (desc : Option PVal) (dt : Option DTree) (props : PropMap) (inherit : Bool)
   | cmd (desc : Option PVal) (arg : Option DTree) (props : PropMap)
   | value (v : PVal) (callable : Bool) (optional : Option PVal)
   | none
+  | prop (p : PropV)
 deriving Repr, Inhabited
 
 structure ClassDecl where
@@ -83,6 +88,13 @@ inductive EntryV where
   | acc (a : AccV)
   | bare (v : PVal) (callable : Bool) (optional : Option PVal)
   | none
+  | prop (p : PropV)
+deriving Repr, Inhabited
+
+/-- module property of a class: the Property object (lying in `owner`'s `__dict__`) and its state -/
+structure PSlot where
+  owner : Name
+  val : PropV
 deriving Repr, Inhabited
 
 /-- accessible of a class: the object (lying in `owner`'s `__dict__`) and its state -/
@@ -95,6 +107,8 @@ structure ClassV where
   decl : ClassDecl
   dict : List (Name × EntryV)
   accessibles : List (Name × SlotV)
+  /-- `cls.propertyDict` (for a mixin outside `HasProperties`: the Property objects of its `__dict__`) -/
+  props : List (Name × PSlot)
 deriving Repr, Inhabited
 
 def valueTypeTree : DTree := .node "value" [] [] []
@@ -138,6 +152,7 @@ def entryOf (T : Tables) (cls name : Name) : Decl → EntryV
     .acc ⟨true, fixExport T name kwds, slot, kwds, slot, none⟩
   | .value v c o => .bare v c o
   | .none => .none
+  | .prop p => .prop (p.setName name)
 
 /-- `updateProperties` (params.py:261-269, 479-481) -/
 def updateProps (T : Tables) (a : AccV) (m : MProps) : MProps :=
@@ -208,6 +223,14 @@ structure Built where
   accs : List (Name × SlotV) := []
 deriving Inhabited
 
+/-- `setattr(cls, name, aobj)`: the accessible replaces what lies in the `__dict__` of the new class under its name — but
+never a Property object written in that class body (Python: `create_from_value` refuses a Property as bare value, the class
+definition fails with a ProgrammingError) -/
+def aputAcc (l : List (Name × EntryV)) (k : Name) (a : AccV) : List (Name × EntryV) :=
+  match aget? l k with
+  | some (.prop _) => l
+  | _ => aput l k (.acc a)
+
 /-- body of the loop over the accessibles found (modulebase.py:90-110, repaired) -/
 def buildOne (T : Tables) (self : Name) (w : Walk) (b : Built) (ns : Name × SlotV) : Built :=
   let name := ns.1
@@ -217,7 +240,7 @@ def buildOne (T : Tables) (self : Name) (w : Walk) (b : Built) (ns : Name × Slo
   | some .none => b
   | some (.bare v _ opt) =>
     let a := createFromValue T self name slot.val.isCmd m v opt
-    { dict := aput b.dict name (.acc a), accs := b.accs ++ [(name, ⟨self, a⟩)] }
+    { dict := aputAcc b.dict name a, accs := b.accs ++ [(name, ⟨self, a⟩)] }
   | _ =>
     if slot.owner != self then
       match slot.val.merged with
@@ -225,13 +248,13 @@ def buildOne (T : Tables) (self : Name) (w : Walk) (b : Built) (ns : Name × Slo
         if mm.eqv m then { b with accs := b.accs ++ [(name, slot)] }     -- shared unchanged
         else
           let a := mergedAcc T self name slot.val.isCmd [] .unset m
-          { dict := aput b.dict name (.acc a), accs := b.accs ++ [(name, ⟨self, a⟩)] }
+          { dict := aputAcc b.dict name a, accs := b.accs ++ [(name, ⟨self, a⟩)] }
       | none =>
         let a := mergedAcc T self name slot.val.isCmd [] .unset m
-        { dict := aput b.dict name (.acc a), accs := b.accs ++ [(name, ⟨self, a⟩)] }
+        { dict := aputAcc b.dict name a, accs := b.accs ++ [(name, ⟨self, a⟩)] }
     else
       let a := mergedAcc T self name slot.val.isCmd slot.val.own slot.val.ownDt m
-      { dict := aput b.dict name (.acc a), accs := b.accs ++ [(name, ⟨self, a⟩)] }
+      { dict := aputAcc b.dict name a, accs := b.accs ++ [(name, ⟨self, a⟩)] }
 
 def moveFront {α : Type} (l : List (Name × α)) (k : Name) : List (Name × α) :=
   match aget? l k with
@@ -246,14 +269,58 @@ def moveEnd {α : Type} (l : List (Name × α)) (k : Name) : List (Name × α) :
 def reorder {α : Type} (T : Tables) (newNames : List Name) (l : List (Name × α)) : List (Name × α) :=
   newNames.foldl moveEnd (T.predef.reverse.foldl moveFront l)
 
-/-- `__init_subclass__` for class `d`, given the classes of `d.mro` other than `d` itself, in MRO order -/
+/-! ## module properties: `HasProperties.__init_subclass__` (properties.py:128-153) -/
+
+/-- body of the loop over `base.__dict__.items()` (properties.py:134-138): a Property object is taken (a
+known key keeps its place), a Parameter/Command of that name removes the property -/
+def propsEntry (owner : Name) (acc : List (Name × PSlot)) (ke : Name × EntryV) : List (Name × PSlot) :=
+  match ke.2 with
+  | .prop p => aput acc ke.1 ⟨owner, p⟩
+  | .acc _ => aerase acc ke.1
+  | _ => acc
+
+/-- the walk over the reversed MRO (properties.py:133-139): `cls.propertyDict` before bare values are treated -/
+def propsWalk (chain : List ClassV) (self : Name) (dict0 : List (Name × EntryV)) : List (Name × PSlot) :=
+  dict0.foldl (propsEntry self) (chain.reverse.foldl (fun acc cv => cv.dict.foldl (propsEntry cv.decl.name) acc) [])
+
+/-- `getattr(cls, name)`: the entry of the first `__dict__` along the MRO that has the name -/
+def lookupMro (dicts : List (List (Name × EntryV))) (n : Name) : Option EntryV :=
+  dicts.findSome? (fun d => aget? d n)
+
+structure PBuilt where
+  dict : List (Name × EntryV)
+  props : List (Name × PSlot)
+deriving Inhabited
+
+/-- body of the loop treating bare values (properties.py:141-153): the Property is **copied**, the copy gets the
+value and replaces the bare value in the `__dict__` of the new class and in its `propertyDict`; the Property
+object found (it lies in the `__dict__` of a base class and is the `propertyDict` entry of that class and of
+all its other subclasses) is left alone.  (Whether the value is accepted by the datatype of the property is
+decided by the implementation: a refused value makes the class definition fail as a whole.) -/
+def propsBare (self : Name) (dicts : List (List (Name × EntryV))) (b : PBuilt) (np : Name × PSlot) : PBuilt :=
+  match lookupMro dicts np.1 with
+  | some (.bare v _ _) =>
+    ⟨aput b.dict np.1 (.prop { np.2.val with value := some v }),
+     aput b.props np.1 ⟨self, { np.2.val with value := some v }⟩⟩
+  | _ => b
+
+def propsDefine (chain : List ClassV) (self : Name) (dict0 : List (Name × EntryV)) : PBuilt :=
+  (propsWalk chain self dict0).foldl (propsBare self (dict0 :: chain.map (·.dict))) ⟨dict0, propsWalk chain self dict0⟩
+
+/-- the Property objects in the `__dict__` of a class outside `HasProperties` -/
+def dictProps (self : Name) (dict : List (Name × EntryV)) : List (Name × PSlot) :=
+  dict.filterMap (fun ke => match ke.2 with | .prop p => some (ke.1, ⟨self, p⟩) | _ => none)
+
+/-- `__init_subclass__` for class `d`, given the classes of `d.mro` other than `d` itself, in MRO order:
+`HasProperties.__init_subclass__` first (`super().__init_subclass__()`, modulebase.py:67), then the accessibles -/
 def pureDefine (T : Tables) (chain : List ClassV) (d : ClassDecl) : ClassV :=
   let dict0 := d.decls.map (fun nd => (nd.1, entryOf T d.name nd.1 nd.2))
-  if !d.isModule then ⟨d, dict0, []⟩
+  if !d.isModule then ⟨d, dict0, [], dictProps d.name dict0⟩
   else
+    let pb := propsDefine chain d.name dict0
     let w0 := chain.reverse.foldl (fun w cv => walkClass T false w cv.decl.name cv.dict) {}
-    let w := walkClass T true w0 d.name dict0
-    let b := w.accessibles.foldl (buildOne T d.name w) { dict := dict0 }
-    ⟨d, b.dict, reorder T w.newNames b.accs⟩
+    let w := walkClass T true w0 d.name pb.dict
+    let b := w.accessibles.foldl (buildOne T d.name w) { dict := pb.dict }
+    ⟨d, b.dict, reorder T w.newNames b.accs, pb.props⟩
 
 end Frappy.Klass
